@@ -114,23 +114,4 @@ def dec (bs : Bytes) : DRes (CVal × Bytes) := decF (bs.length + 1) bs
 
 def encode (v : CVal) : Option Bytes := if validB maxLen v then some (enc v) else none
 
-/-- `codec.Decode(&v)` with `v []any` at top level: array → items, null → empty,
-    MAP → keys and values interleaved (the codec's behaviour). -/
-def decTop (bs : Bytes) : DRes (List CVal) :=
-  match bs with
-  | [] => .error .malformed
-  | b :: rest =>
-    let major := b.toNat / 32
-    let info := b.toNat % 32
-    if major = 7 then (if info = 22 then .ok [] else .error .malformed)
-    else if major = 4 ∨ major = 5 then
-      match readArg info rest with
-      | .error e => .error e
-      | .ok (n, r) =>
-        if maxLen ≤ (if major = 4 then n else 2 * n) then .error .unsupported else
-        match decItems (decF bs.length) (if major = 4 then n else 2 * n) r with
-        | .ok (l, _) => .ok l
-        | .error e => .error e
-    else .error .malformed
-
 end Nexus.Codec.CBOR
